@@ -433,6 +433,17 @@ func mustBeSignedHeader(headerKey string) bool {
 	return false
 }
 
+// canonicalHeaderValue applies the SigV4 "Trimall" rule to one header value:
+// surrounding white space is removed and sequential spaces are converted to
+// a single space, exactly as the AWS SDK signers do before signing.
+func canonicalHeaderValue(value string) string {
+	value = strings.TrimSpace(value)
+	for strings.Contains(value, "  ") {
+		value = strings.ReplaceAll(value, "  ", " ")
+	}
+	return value
+}
+
 // collectSignedHeaders returns the headers participating in the signature,
 // lowercased and sorted by key, shared by the canonical-headers and
 // signed-headers serializations.
@@ -441,12 +452,16 @@ func collectSignedHeaders(r *http.Request, headersToInclude []string) []pair {
 
 	headers = append(headers, pair{
 		key: "host",
-		val: strings.TrimSpace(r.Host),
+		val: canonicalHeaderValue(r.Host),
 	})
 	for headerKey, headerValues := range r.Header {
 		headerKey = strings.ToLower(headerKey)
 		if includeInCanonicalHeaders(headerKey, headersToInclude) {
-			headerVal := strings.TrimSpace(strings.Join(headerValues, ","))
+			canonicalValues := make([]string, len(headerValues))
+			for idx, headerValue := range headerValues {
+				canonicalValues[idx] = canonicalHeaderValue(headerValue)
+			}
+			headerVal := strings.Join(canonicalValues, ",")
 			headers = append(headers, pair{
 				key: headerKey,
 				val: headerVal,
